@@ -565,44 +565,69 @@ def checkS (P : Prog) (S : Sigs) (Γ : LEnv) (res : List Label) (allowed : List 
        else (checkEs Γ args (List.replicate args.length .H) && allH rl))
     | none => false
 
-/-! ### Label inference for local variables (not trusted: `checkS` validates its result) -/
+/-! ### Label inference for local variables (not trusted: `checkS` validates its result)
 
-def LEnv.raise (Γ : LEnv) (x : Nat) (l : Label) : LEnv :=
+  The inferred environment is a bit mask (bit x set = variable x secret): natural-number
+  operations are evaluated eagerly by the kernel, which keeps `decide` on `check` fast. -/
+
+def maskGet (m : Nat) (x : Nat) : Label := if m.testBit x then .H else .L
+
+def maskRaise (m : Nat) (x : Nat) (l : Label) : Nat :=
   match l with
-  | .L => Γ
-  | .H => Γ.set x .H
+  | .L => m
+  | .H => m ||| (1 <<< x)
 
-def LEnv.raiseMany (Γ : LEnv) : List Nat → List Label → LEnv
-  | x :: xs, l :: ls => LEnv.raiseMany (Γ.raise x l) xs ls
-  | _, _ => Γ
+def maskRaiseMany (m : Nat) : List Nat → List Label → Nat
+  | x :: xs, l :: ls => maskRaiseMany (maskRaise m x l) xs ls
+  | _, _ => m
 
-def inferS (S : Sigs) (Γ : LEnv) : Stmt → LEnv
-  | .assign x _ e =>
-    match labelE Γ e with
-    | some le => Γ.raise x le
-    | none => Γ.raise x .H
-  | .seq a b => inferS S (inferS S Γ a) b
-  | .ite _ a b => inferS S (inferS S Γ a) b
-  | .loop _ body post => inferS S (inferS S Γ body) post
+/-- label of an expression under a mask; an expression the checker would reject counts as secret -/
+def labelM (m : Nat) : Expr → Label
+  | .lit _ => .L
+  | .glob _ => .L
+  | .var x => maskGet m x
+  | .idx a _ => labelM m a
+  | .idxc a _ => labelM m a
+  | .len _ => .L
+  | .slice a _ _ => labelM m a
+  | .mk _ init => labelM m init
+  | .cat a b => (labelM m a).join (labelM m b)
+  | .cteq a b => (labelM m a).join (labelM m b)
+  | .op1 _ a => labelM m a
+  | .op2 _ a b => (labelM m a).join (labelM m b)
+  | .op3 _ a b c => ((labelM m a).join (labelM m b)).join (labelM m c)
+
+def inferS (S : Sigs) (m : Nat) : Stmt → Nat
+  | .assign x _ e => maskRaise m x (labelM m e)
+  | .seq a b => inferS S (inferS S m a) b
+  | .ite _ a b => inferS S (inferS S m a) b
+  | .loop _ body post => inferS S (inferS S m body) post
   | .call lhs g _ =>
     match S.fn[g]? with
-    | some fs => Γ.raiseMany lhs fs.results
-    | none => Γ
+    | some fs => maskRaiseMany m lhs fs.results
+    | none => m
   | .ext lhs name _ _ =>
     match S.ext[name]? with
-    | some rl => Γ.raiseMany lhs rl
-    | none => Γ
-  | _ => Γ
+    | some rl => maskRaiseMany m lhs rl
+    | none => m
+  | _ => m
 
-def inferIter (S : Sigs) (body : Stmt) : Nat → LEnv → LEnv
-  | 0, Γ => Γ
-  | n + 1, Γ =>
-    let Γ' := inferS S Γ body
-    if Γ' == Γ then Γ else inferIter S body n Γ'
+def inferIter (S : Sigs) (body : Stmt) : Nat → Nat → Nat
+  | 0, m => m
+  | n + 1, m =>
+    let m' := inferS S m body
+    if m' == m then m else inferIter S body n m'
+
+def maskOfLabels : List Label → Nat → Nat
+  | [], _ => 0
+  | .L :: ls, x => maskOfLabels ls (x + 1)
+  | .H :: ls, x => (1 <<< x) ||| maskOfLabels ls (x + 1)
+
+def maskToLabels (m : Nat) (n : Nat) : LEnv := (List.range n).map (maskGet m)
 
 /-- label environment of a function: parameters from the signature, locals inferred -/
 def gammaOf (S : Sigs) (fs : FnSig) (fn : Fn) : LEnv :=
-  inferIter S fn.body 12 (fs.params ++ List.replicate (fn.nvars - fs.params.length) .L)
+  maskToLabels (inferIter S fn.body 12 (maskOfLabels fs.params 0)) fn.nvars
 
 def checkFn (P : Prog) (S : Sigs) (g : Nat) (fn : Fn) : Bool :=
   fn.stub ||
